@@ -161,8 +161,11 @@ class RTDCWriter:
         # set event count
         feats = sorted(self.h5file.get("events", {}).keys())
         if feats:
-            self.h5file.attrs["experiment:event count"] = len(
-                self.h5file["events"][feats[0]])
+            feat0 = self.h5file["events"][feats[0]]
+            if feats[0] == "trace" and len(feat0):
+                # The "trace" group holds one dataset per trace name.
+                feat0 = feat0[sorted(feat0.keys())[0]]
+            self.h5file.attrs["experiment:event count"] = len(feat0)
         else:
             raise ValueError(f"No features in '{self.path}'!")
 
